@@ -171,3 +171,31 @@ def length_edge_cases(r, quick):
             k2["header_tail"] = r.randbytes(abs(d))
             out.append(("edge:header_tail%d" % abs(d), zckref.build(**k2)))
     return out
+
+
+def dict_cases(r, quick):
+    """Well-formed, correctly sealed zstd files whose DICTIONARY is hostile: it decompresses to the zstd dictionary magic followed by
+    bytes that are not a dictionary (the decompressor's dictionary loader then fails: an error path of its own), to an empty
+    string, to one byte, or it is not a zstd frame at all."""
+    out = []
+    kinds = [("magic+garbage", b"\x37\xa4\x30\xec" + r.randbytes(200)), ("magic-only", b"\x37\xa4\x30\xec"), ("magic+zeros", b"\x37\xa4\x30\xec" + bytes(300)),
+             ("one-byte", b"x"), ("magic+short", b"\x37\xa4\x30\xec\x01\x00\x00\x00" + r.randbytes(3))]
+    for name, dict_b in kinds:
+        for cht in ([1] if quick else [0, 1, 2, 3]):
+            for flags in (0, 4):
+                if flags & 4 and cht not in (1, 2):
+                    continue
+                pieces = [r.randbytes(r.randrange(1, 120)) for _ in range(r.randrange(1, 4))]
+                stored = [zckref.zstd_compress(dict_b)] + [zckref.zstd_compress(p) for p in pieces]
+                cds = DIGEST_SIZE[cht]
+                chunks = [(zckref.H(cht, s), zckref.H(cht, u) if flags & 4 else None, len(s), len(u)) for s, u in zip(stored, [dict_b] + pieces)]
+                kw = dict(hash_type=r.randrange(4), flags=flags, comp_type=2, chunk_hash_type=cht, chunks=chunks, body=b"".join(stored))
+                if flags & 4:
+                    kw["data_digest"] = zckref.H(kw["hash_type"], dict_b + b"".join(pieces)) if False else bytes(DIGEST_SIZE[kw["hash_type"]])
+                out.append(("dict:%s:cht%d:f%d" % (name, cht, flags), zckref.build(**kw)))
+    # a dictionary chunk that is not a zstd frame
+    pieces = [r.randbytes(50)]
+    stored = [r.randbytes(40)] + [zckref.zstd_compress(p) for p in pieces]
+    chunks = [(zckref.H(1, s), None, len(s), n) for s, n in zip(stored, [100, 50])]
+    out.append(("dict:not-a-frame", zckref.build(hash_type=1, flags=0, comp_type=2, chunk_hash_type=1, chunks=chunks, body=b"".join(stored))))
+    return out
